@@ -619,6 +619,16 @@ func (w *world) swap(i int, st simcore.Step, fk string, fa int64) bool {
 		return false
 	}
 
+	// incentives accrue with time to the liquidity that was active while the time passed; a swap happens at one
+	// instant, so it must leave every position's claimable incentives exactly where they were (queries bring the
+	// accumulators up to the block time themselves)
+	type incSnap struct{ c, f sdk.Coins }
+	incBefore := map[uint64]incSnap{}
+	for _, q := range w.poolPositions(p) {
+		if c, f, err := n.App.ConcentratedLiquidityKeeper.GetClaimableIncentives(n.Ctx, q.id); err == nil {
+			incBefore[q.id] = incSnap{c, f}
+		}
+	}
 	inBefore, outBefore := n.Balance(n.Ctx, trader, inDenom), n.Balance(n.Ctx, trader, outDenom)
 	spreadAcctBefore := n.Balance(n.Ctx, p.spreadAdr, inDenom)
 	res := n.DeliverFault(msg, fk, fa)
@@ -647,6 +657,21 @@ func (w *world) swap(i int, st simcore.Step, fk string, fa int64) bool {
 		w.notePrecision(p, rmul(ideal.maxLiq, rint(int64(len(ideal.steps))+1)), bigDecToRat(sq0), ideal.endSqrt)
 	}
 	w.okOps++
+
+	for _, q := range w.poolPositions(p) {
+		b, ok := incBefore[q.id]
+		if !ok {
+			continue
+		}
+		c, f, err := n.App.ConcentratedLiquidityKeeper.GetClaimableIncentives(n.Ctx, q.id)
+		if err != nil || !c.Equal(b.c) || !f.Equal(b.f) {
+			run.Fail("C08", "swap-changes-claimable-incentives", "swap", "position %d [%d,%d) could claim incentives %s (+%s forfeitable) before the swap and %s (+%s) right after it, in the same block (err %v); tick before %d", q.id, q.lower, q.upper, b.c, b.f, c, f, err, tickBefore)
+			return false
+		}
+	}
+	if len(incBefore) > 0 {
+		run.Probe("swap-incentive-invariance-checked")
+	}
 
 	// estimate == execution
 	calc := gotOut
